@@ -144,6 +144,20 @@ func pointsFor(c *Check) int {
 // checkEquiv emits one obligation for "repository function ≡ reference formulation".
 func checkEquiv(c *Check, p *Prog, rule, key string, spec eqSpec, what string) bool {
 	r := runEquiv(c, p, spec, pointsFor(c))
+	if c.Tier == "thorough" && r.OK && len(r.Und) == 0 {
+		// two more independent seeds
+		base := c.Seed
+		for _, k := range []int64{1, 2} {
+			c.Seed = base*1000003 + k*7919
+			r2 := runEquiv(c, p, spec, pointsFor(c))
+			r2.NCmp += r.NCmp
+			r = r2
+			if !r.OK || len(r.Und) > 0 {
+				break
+			}
+		}
+		c.Seed = base
+	}
 	if len(r.Und) > 0 {
 		c.Undecided(rule, key, r.Where, "structure not covered by the recogniser: %s", trunc(strings.Join(r.Und, "; "), 500))
 		return false
